@@ -181,8 +181,11 @@ def main():
   gen = limitgen.emit(vlib.GEN)
   from translate import sizegen
   sgen = sizegen.emit(vlib.GEN)
-  info = vlib.build_obligations(PROP, gen_files=[gen, sgen], extra_files=[os.path.join(vlib.COQ, "theories", "Link", "LimitLink.v"),
-                                                                         os.path.join(vlib.COQ, "theories", "Link", "SizeLink.v")])
+  from translate import rolegen
+  rgen = rolegen.emit(vlib.GEN)
+  info = vlib.build_obligations(PROP, gen_files=[gen, sgen, rgen], extra_files=[os.path.join(vlib.COQ, "theories", "Link", "LimitLink.v"),
+                                                                               os.path.join(vlib.COQ, "theories", "Link", "SizeLink.v"),
+                                                                               os.path.join(vlib.COQ, "theories", "Link", "RoleLink.v")])
   errs = rep.obligations(info, "python3 tools/translate/limitgen.py coq/gen && coqc coq/gen/LimitGen.v && coqc coq/theories/Link/LimitLink.v && coqc coq/theories/Properties/C20.v")
   for e in errs:
     rep.violation("obligation-" + os.path.basename(e["file"]), "proof obligation no longer checks: " + e["error"][-400:],
